@@ -609,6 +609,11 @@ func (m *Model) probeClosedMore(h *handle) {
 		{"StartDCPFeed(backfill)", feed(sgbucket.FeedArguments{ID: "closedprobe", Backfill: 0}, false)},
 		{"StartDCPFeed(dump)", feed(sgbucket.FeedArguments{ID: "closedprobe", Backfill: 0, Dump: true}, false)},
 		{"Bucket.StartDCPFeed(live)", feed(sgbucket.FeedArguments{ID: "closedprobe", Backfill: sgbucket.FeedNoBackfill}, true)},
+		{"NamedDataStore(cached)", func() error {
+			// the handle fetched its default collection while it was open: asking for it again is a call like any other
+			_, e := h.b.NamedDataStore(sgbucket.DataStoreNameImpl{Scope: sgbucket.DefaultScope, Collection: sgbucket.DefaultCollection})
+			return e
+		}},
 		{"Add", func() error { _, e := col.Add("closedprobe", 0, "v"); return e }},
 		{"Incr", func() error { _, e := col.Incr("closedprobe-n", 1, 1, 0); return e }},
 		{"WriteCas", func() error { _, e := col.WriteCas("closedprobe", 0, 0, []byte(`{"a":1}`), 0); return e }},
